@@ -27,6 +27,7 @@ const unknownVersion = "Unknown Snoop Format Version"
 const unkownLinkType = "Unknown Link Type"
 const originalLenExceeded = "Capture length exceeds original packet length"
 const captureLenExceeded = "Capture length exceeds max capture length"
+const recordLenTooSmall = "Record length is smaller than header plus capture length"
 
 type snoopHeader struct {
 	Version  uint32
@@ -127,7 +128,7 @@ func (r *SnoopReader) readPacketHeader() (ci gopacket.CaptureInfo, err error) {
 	ci.Timestamp = time.Unix(int64(binary.BigEndian.Uint32(r.buf[16:20])), int64(binary.BigEndian.Uint32(r.buf[20:24])*1000)).UTC()
 	ci.Length = int(binary.BigEndian.Uint32(r.buf[0:4]))
 	ci.CaptureLength = int(binary.BigEndian.Uint32(r.buf[4:8]))
-	r.pad = int(binary.BigEndian.Uint32(r.buf[8:12])) - (24 + ci.Length)
+	recordLength := int(binary.BigEndian.Uint32(r.buf[8:12]))
 
 	if ci.CaptureLength > ci.Length {
 		err = errors.New(originalLenExceeded)
@@ -136,9 +137,39 @@ func (r *SnoopReader) readPacketHeader() (ci gopacket.CaptureInfo, err error) {
 
 	if ci.CaptureLength > maxCaptureLen {
 		err = errors.New(captureLenExceeded)
+		return
+	}
+
+	// RFC 1761: the record length covers the 24 byte record header, the
+	// captured (included) data and the pad.
+	r.pad = recordLength - (24 + ci.CaptureLength)
+	if r.pad < 0 {
+		err = errors.New(recordLenTooSmall)
 	}
 
 	return
+}
+
+// readPacketBody fills data with the captured bytes and skips the pad that
+// follows them. The pad is discarded without being buffered, so a hostile
+// record length cannot cause a large allocation. A stream that ends inside
+// the record is reported as io.ErrUnexpectedEOF.
+func (r *SnoopReader) readPacketBody(data []byte) error {
+	if _, err := io.ReadFull(r.r, data); err != nil {
+		if err == io.EOF {
+			err = io.ErrUnexpectedEOF
+		}
+		return err
+	}
+	if r.pad > 0 {
+		if _, err := io.CopyN(io.Discard, r.r, int64(r.pad)); err != nil {
+			if err == io.EOF {
+				err = io.ErrUnexpectedEOF
+			}
+			return err
+		}
+	}
+	return nil
 }
 
 // ReadPacketData reads next packet data.
@@ -146,9 +177,9 @@ func (r *SnoopReader) ReadPacketData() (data []byte, ci gopacket.CaptureInfo, er
 	if ci, err = r.readPacketHeader(); err != nil {
 		return
 	}
-	data = make([]byte, ci.CaptureLength+r.pad)
-	_, err = io.ReadFull(r.r, data)
-	return data[:ci.CaptureLength], ci, err
+	data = make([]byte, ci.CaptureLength)
+	err = r.readPacketBody(data)
+	return data, ci, err
 
 }
 
@@ -162,9 +193,10 @@ func (r *SnoopReader) ZeroCopyReadPacketData() (data []byte, ci gopacket.Capture
 		return
 	}
 
-	if cap(r.packetBuf) < ci.CaptureLength+r.pad {
-		r.packetBuf = make([]byte, ci.CaptureLength+r.pad)
+	if cap(r.packetBuf) < ci.CaptureLength {
+		r.packetBuf = make([]byte, ci.CaptureLength)
 	}
-	_, err = io.ReadFull(r.r, r.packetBuf[:ci.CaptureLength+r.pad])
-	return r.packetBuf[:ci.CaptureLength], ci, err
+	data = r.packetBuf[:ci.CaptureLength]
+	err = r.readPacketBody(data)
+	return data, ci, err
 }
